@@ -389,9 +389,22 @@ func (r *run) reply(url string, rep Rep) ls.Reply {
 	case rep.Alt < 0:
 		body = splitVariant(body)
 	}
-	out := ls.Reply{Kind: rep.K, Body: body, Status: rep.St, Delay: time.Duration(rep.D) * time.Second,
+	kind := rep.K
+	if r.sc.Ops[r.opIdx].K == "seturl" {
+		// set_url downloads while holding the list mutex; the updates-loop
+		// timer firing during a stall would then block on that mutex, which a
+		// synctest bubble cannot treat as idle (simulated time would stop).
+		// Inside set_url a stall is therefore delivered as a dead connection.
+		switch kind {
+		case ls.KindSlowHdr:
+			kind, rep.P = ls.KindCutHdr, 0
+		case ls.KindSlowBody:
+			kind = ls.KindCutCL
+		}
+	}
+	out := ls.Reply{Kind: kind, Body: body, Status: rep.St, Delay: time.Duration(rep.D) * time.Second,
 		Tag: fmt.Sprintf("v%d/%d", v, rep.Alt)}
-	switch rep.K {
+	switch kind {
 	case ls.KindCutHdr:
 		out.Cut = rep.P
 	case ls.KindCutCL, ls.KindCutChunk, ls.KindSlowBody:
@@ -841,7 +854,7 @@ func (r *run) check(op Op, out *opOutcome, recs []*ls.Record) error {
 					if other.id == o.ID {
 						v := kernel.Violationf("list-id-reused", "add_url gave the new list %s the id %d, which list %s still uses: both now share the file data/filters/%d.txt (ids are issued from a counter seeded with the start time in seconds: this run started at t=%s, the previous one at t=%s)",
 							o.URL, o.ID, other.url, o.ID, r.startAt.Sub(kernel.Epoch), r.prevStartAt.Sub(kernel.Epoch))
-						if c.Tolerate(v) {
+						if ls.Tolerate(c, "C15", "c15", v) {
 							return errStop
 						}
 						return v
@@ -864,7 +877,8 @@ func (r *run) check(op Op, out *opOutcome, recs []*ls.Record) error {
 		byURL[rec.URL] = append(byURL[rec.URL], rec)
 	}
 	anyStoredChanged := false
-	failedN, okN := 0, 0
+	failedN, okN, ambN := 0, 0, 0
+	kindReq := map[bool]bool{} // kinds (allow / block) of the lists that were requested
 	known := map[string]bool{}
 	for _, l := range r.lists {
 		known[fmt.Sprintf("%d.txt", l.id)] = true
@@ -876,6 +890,9 @@ func (r *run) check(op Op, out *opOutcome, recs []*ls.Record) error {
 		myRecs := byURL[l.url]
 		if out.failedSetURL == l {
 			myRecs = nil // downloads of the rejected new location must change nothing
+		}
+		if len(myRecs) > 0 {
+			kindReq[l.white] = true
 		}
 		acc := []fstate{l.st}
 		sawNew, onlySame := false, true
@@ -898,12 +915,27 @@ func (r *run) check(op Op, out *opOutcome, recs []*ls.Record) error {
 			}
 			l.earlier = append(l.earlier, lines)
 			sawNew = true
+			if cl == expEither && out.code == 200 && (op.K == "add" || (op.K == "seturl" && l.unloaded == "url-changed")) {
+				// The request that downloaded it was accepted: the text counts
+				// as taken (the old file came from another location).
+				cl = expNew
+			}
 			if cl == expEither {
 				acc = append(acc, ns)
+				ambN++
 				continue
 			}
 			okN++
 			next := []fstate{ns}
+			if ns.nf == "" {
+				// No rules: the statement does not ask for an empty file
+				// where there was none.
+				for _, a := range acc {
+					if !a.has {
+						next = append(next, a)
+					}
+				}
+			}
 			// The statement lets content with an unchanged checksum stay.
 			crc := ls.LinesChecksum(lines)
 			for _, a := range acc {
@@ -930,6 +962,13 @@ func (r *run) check(op Op, out *opOutcome, recs []*ls.Record) error {
 			if len(acc) == 1 && acc[0].has && obs.has {
 				desc += fmt.Sprintf("; expected normal form %d bytes sha %s, first difference at offset %d", len(acc[0].nf), sha([]byte(acc[0].nf)), firstDiff([]byte(acc[0].nf), []byte(obs.nf)))
 			}
+			if obs == l.st && l.unloaded != "" && len(acc) == 1 && acc[0].nf == "" && obs.nf != "" {
+				v := kernel.Violationf("empty-list-keeps-old-file", "%s: the location now serves a list without rules and the download was accepted, but the file keeps its previous %d bytes (checksum 0 doubles as 'nothing loaded' after %s): rules_count says %d, the old rules stay in the file the engines read", desc, len(obs.nf), l.unloaded, obsCount[l.id])
+				if ls.Tolerate(c, "C15", "c15", v) {
+					return errStop
+				}
+				return v
+			}
 			if obs == l.st {
 				return kernel.Violationf("successful-refresh-not-stored", "%s", desc)
 			}
@@ -950,7 +989,7 @@ func (r *run) check(op Op, out *opOutcome, recs []*ls.Record) error {
 				cls = ""
 			}
 			v := kernel.Violationf(cls, "%s: the served content equals the stored one (sha %s) but the file was replaced (new inode); requests: %s", where, sha(fs.Data), fmtRecs(myRecs))
-			if cls != "" && !c.Tolerate(v) {
+			if cls != "" && !ls.Tolerate(c, "C15", "c15", v) {
 				return v
 			}
 		} else if obs == l.st && obs.has && sawNew && onlySame {
@@ -1056,7 +1095,12 @@ func (r *run) check(op Op, out *opOutcome, recs []*ls.Record) error {
 				case !changed:
 					return kernel.Violationf("rules-in-force-changed", "%s: verdict %s -> %s although no list changed in this operation (model expects %s); requests: %s", name, before, got.Reason, want, fmtRecs(recs))
 				case pass == 0 && anyStoredChanged && r.earlierVerdict(v, got.Reason):
-					stale = kernel.Violationf("stored-list-not-in-force", "%s: verdict still %s, the lists now stored give %s: the engines were not rebuilt after a refresh that replaced a list file; requests: %s", name, got.Reason, want, fmtRecs(recs))
+					cls := "stored-list-not-in-force"
+					if len(kindReq) == 2 && failedN+ambN > 0 {
+						// a timer-driven refresh (block and allow lists at once) in which downloads failed
+						cls = "stored-list-not-in-force-after-failed-downloads"
+					}
+					stale = kernel.Violationf(cls, "%s: verdict %s, the lists now stored give %s: the engines were not rebuilt after a refresh that replaced a list file; requests: %s", name, got.Reason, want, fmtRecs(recs))
 				default:
 					return kernel.Violationf("verdict-mismatch", "%s: verdict %s, the lists stored give %s (before the operation: %s); requests: %s", name, got.Reason, want, before, fmtRecs(recs))
 				}
@@ -1071,7 +1115,7 @@ func (r *run) check(op Op, out *opOutcome, recs []*ls.Record) error {
 		if stale == nil {
 			break
 		}
-		if !c.Tolerate(stale) {
+		if !ls.Tolerate(c, "C15", "c15", stale) {
 			return stale
 		}
 		// Known finding: carry on after making the system rebuild its engines.
@@ -1217,6 +1261,7 @@ var Prop = &kernel.Property{
 		"a completely delivered text whose rule lines have the same CRC-32 as the stored ones may be kept un-stored (the statement's 'unchanged checksum')",
 		"HTTP bodies delimited by connection close are only generated complete (truncation is invisible by protocol design)",
 		"operations are serialised (mode A): the next operation starts when the previous refresh has finished",
+		"a stalled download inside set_url is delivered as a dead connection (set_url holds the list mutex while downloading; a timer-driven refresh blocking on that mutex would stop the simulated clock); stalls past the client timeout are simulated for add_url, forced and scheduled refresh",
 	},
 	FaultKinds: []string{"dial_error", "status_not_200", "cut_in_headers", "cut_content_length", "cut_chunked", "slow_headers_timeout", "slow_body_timeout", "html_page", "binary_body", "clean_restart"},
 	ProbeNames: []string{"refresh_forced", "refresh_scheduled", "refresh_partly_failed", "refresh_all_failed", "failed_refresh_left_list_unchanged", "changed_content_stored_as_normal_form", "unchanged_content_kept_inode",
